@@ -12,7 +12,20 @@ import (
 
 func (ex *Exec) call(fr *Frame, instr ssa.Instruction, c *ssa.CallCommon, st *State, reach Term) Val {
 	var args []Val
+	opaque := false
+	if f, ok := c.Value.(*ssa.Function); ok && f.Pkg != nil {
+		switch f.Pkg.Pkg.Path() {
+		case "errors", "fmt":
+			opaque = true // message texts are never inspected: keep them out of the VC
+		}
+	}
 	for _, a := range c.Args {
+		if k, ok := a.(*ssa.Const); ok && opaque && k.Value != nil && isString(k.Type()) {
+			s := constString(k)
+			d := ex.vc.declare(fmt.Sprintf("msg!%d", hashString(s)), ArraySort(SInt))
+			args = append(args, Scalar{MkStr(d, IntLit(0), IntLit(int64(len(s)))), k.Type()})
+			continue
+		}
 		args = append(args, ex.get(fr, a, st))
 	}
 	pos := instr.Pos()
@@ -287,6 +300,17 @@ func (ex *Exec) applyContract(fr *Frame, c *Contract, names []string, args []Val
 		rvars["result"] = results[0]
 	}
 	envPost := &SpecEnv{vars: rvars, st: st, lst: st, pkg: tpkg, old: envPre, topOld: topPre}
+	if len(c.Ghosts) > 0 {
+		envPost.ghosts = map[string]string{}
+		for _, g := range c.Ghosts {
+			ex.vc.counter++
+			var sorts []Sort
+			for range g.Params {
+				sorts = append(sorts, SInt)
+			}
+			envPost.ghosts[g.Name] = ex.vc.declareFun(fmt.Sprintf("ghost|%s!%d", g.Name, ex.vc.counter), sorts, SInt)
+		}
+	}
 	for _, e := range c.Ensures {
 		g := ex.evalBool(e.E, envPost)
 		ex.vc.assume(Implies(reach, g))
